@@ -158,23 +158,30 @@ func (s *taskSpec) buildTask(name, trace string) *task.Task {
 	if s.vars >= 0 {
 		t.Variations = make([]map[string]string, s.vars)
 		for v := 0; v < s.vars; v++ {
-			t.Variations[v] = map[string]string{"V": fmt.Sprint(v)}
+			t.Variations[v] = map[string]string{"V": fmt.Sprint(v + 1)} // V is unset when the task declares no variations
 		}
 	}
 	// command j: a case statement on the variation index selects the result for (v, j)
 	for j := 0; j < s.nCmds; j++ {
 		var sb strings.Builder
-		sb.WriteString("case \"${V:-0}\" in ")
+		sb.WriteString("case \"${V:-none}\" in ")
+		label := func(v int) string {
+			if s.vars < 0 {
+				return "none"
+			}
+			return fmt.Sprint(v + 1)
+		}
 		for v := 0; v < s.nVars(); v++ {
 			r := s.res[v*s.nCmds+j]
 			hasFault = hasFault || r.kind == 'f'
 			switch r.kind {
 			case 'e':
-				fmt.Fprintf(&sb, "%d) echo m%d.%d >> %s; exit %d;; ", v, v, j, trace, r.n)
+				fmt.Fprintf(&sb, "%s) echo m%d.%d >> %s; exit %d;; ", label(v), v, j, trace, r.n)
 			case 'f':
-				fmt.Fprintf(&sb, "%d) echo m%d.%d >> %s; sleep 5;; ", v, v, j, trace)
+				fmt.Fprintf(&sb, "%s) echo m%d.%d >> %s; sleep 5;; ", label(v), v, j, trace)
 			}
 		}
+		fmt.Fprintf(&sb, "*) echo mWRONGVARIATION.%d >> %s;; ", j, trace)
 		sb.WriteString("esac")
 		cmd := sb.String()
 		// norender / unparsable are properties of the command text, not of the variation: applied to the
